@@ -21,7 +21,7 @@ META = dict(
           "default and for supplied components. Loop-free formulas are decided for all reals (no size bound).",
     trusted="z3 (nlsat); real arithmetic instead of float32 (stated); int8 casts modelled as two's-complement wrap + numpy negative-index wrap; "
             "symbolic build validated against the real build on concrete inputs every run",
-    bounds=dict(quick="label sets <= 3 (all supply orders), strings <= 2 symbolic characters, K <= 300 symbolic, 2 units",
+    bounds=dict(quick="(three forms per pair: d_mat on continuum arrays, d on units, compute_disorder on alignment arrays) label sets <= 3 (all supply orders), strings <= 2 symbolic characters, K <= 300 symbolic, 2 units",
                 thorough="label sets <= 4, strings <= 3 symbolic characters"),
     outside="float32 rounding of the values; label sets > 4; strings > 3 characters; numba's behaviour on out-of-range indices (reported as a violation of "
             "'in-bounds' rather than modelled)",
@@ -83,6 +83,11 @@ def arrays_of(D, c):
 
 def units_of(c):
     return [list(c._annotations[a])[0] for a in (ANN[0], ANN[1])]
+
+
+def alignment_form(ns, D, u1, u2):
+    """third form: the value through the alignment-shaped arrays (compute_disorder of the two-unit unitary alignment; one pair, so the mean is the pair value)"""
+    return ns.al.UnitaryAlignment([(ANN[0], u1), (ANN[1], u2)]).compute_disorder(D)
 
 
 def sym_props(name, dm, dd, a1, a2, u1, u2, rz, nonneg_assume=True):
@@ -155,6 +160,7 @@ def harness(cfg, ns):
             want = common.pos_formula((info[(0, 0)]["start"], info[(0, 0)]["end"]), (info[(1, 0)]["start"], info[(1, 0)]["end"]), de)
             obls.append(Obl("positional:d_mat==formula", core.eq(D.d_mat(a1, a2), want), rz))
             obls.append(Obl("positional:d==formula", core.eq(D.d(u1, u2), want), rz))
+            obls.append(Obl("positional:alignment-form(compute_disorder)==d", core.eq(alignment_form(ns, D, u1, u2), D.d(u1, u2)), rz))
             obls += sym_props("positional", D.d_mat, D.d, a1, a2, u1, u2, rz)
         elif sub == "absolute":
             c, info = two_units(ns, ctx, cfg["labels"])
@@ -165,6 +171,7 @@ def harness(cfg, ns):
             want = de if cfg["labels"][0] != cfg["labels"][1] else 0
             obls.append(Obl("absolute:d_mat==formula", core.eq(D.d_mat(a1, a2), want), rz))
             obls.append(Obl("absolute:d==formula", core.eq(D.d(u1, u2), want), rz))
+            obls.append(Obl("absolute:alignment-form(compute_disorder)==d", core.eq(alignment_form(ns, D, u1, u2), D.d(u1, u2)), rz))
             obls += sym_props("absolute", D.d_mat, D.d, a1, a2, u1, u2, rz)
         elif sub == "precomputed_K":
             K = ctx.fresh("K", lo=1, hi=300, integer=True)
@@ -319,6 +326,7 @@ def harness(cfg, ns):
             obls.append(Obl("combined:d_mat==alpha*pos+beta*cat(one delta)", cmp(D.d_mat(a1, a2), want, beta * de), rz))
             obls.append(Obl("combined:d==alpha*pos+beta*cat(one delta)", cmp(D.d(u1, u2), want, beta * de), rz))
             obls.append(Obl("combined:d_mat==d", core.eq(D.d_mat(a1, a2), D.d(u1, u2)), rz))
+            obls.append(Obl("combined:alignment-form(compute_disorder)==d", core.eq(alignment_form(ns, D, u1, u2), D.d(u1, u2)), rz))
             obls += sym_props("combined", D.d_mat, D.d, a1, a2, u1, u2, rz)
         elif sub == "reuse":
             alpha, beta = ctx.fresh("alpha", lo=0), ctx.fresh("beta", lo=0)
@@ -422,6 +430,11 @@ def replay(case):
                 bad.append(f"d_mat={dm} documented={want}")
             if not close(dd, want):
                 bad.append(f"d={dd} documented={want}")
+            from pygamma_agreement.alignment import UnitaryAlignment
+            uu = [list(c._annotations[a])[0] for a in c.annotators]
+            af = float(UnitaryAlignment([(ANN[0], uu[0]), (ANN[1], uu[1])]).compute_disorder(D))
+            if not close(af, dd):
+                bad.append(f"alignment form (compute_disorder) = {af}, d = {dd}")
         elif kind == "precomputed_K":
             K, c1, c2 = int(_F(case["K"])), int(_F(case["c1"])), int(_F(case["c2"]))
             labs = [f"c{k:04d}" for k in range(K)]
